@@ -13,6 +13,7 @@ import (
 	"sort"
 	"strconv"
 	"strings"
+	"sync"
 
 	"github.com/MichaelMure/git-bug/entities/bug"
 	"github.com/MichaelMure/git-bug/entity"
@@ -447,6 +448,11 @@ var c20EndToEnd = func(r *mon.Run) {
 		}
 	}
 
+	type e2eStable struct {
+		f   e2eField
+		ref []string
+	}
+	var stable []e2eStable
 	repeats := r.Pick(3, 3)
 	for _, f := range fields {
 		ref0, msg := e2eFetch(h, f, "")
@@ -581,6 +587,9 @@ var c20EndToEnd = func(r *mon.Run) {
 				}
 			}
 		}
+		if !fieldUnstable && n >= 2 {
+			stable = append(stable, e2eStable{f, ref0.Nodes})
+		}
 		if fieldUnstable {
 			r.Seen("e2e_fields_without_stable_order", f.Key)
 			r.Count("e2e_distinct_orders_seen/"+f.Key, e2eDistinctOrders(observed))
@@ -589,6 +598,67 @@ var c20EndToEnd = func(r *mon.Run) {
 			r.Count("e2e_unstable_listing_observations/"+f.Key, unstable)
 		}
 		r.Count("e2e_unpaginated_listings", listings)
+	}
+	// Several clients page through the lists at the same time (the web UI sends sibling requests concurrently, and
+	// one server answers many users): every walk must still reproduce the list, whatever the others are doing.
+	{
+		type job struct {
+			st      e2eStable
+			size    int
+			forward bool
+		}
+		var jobs []job
+		for _, st := range stable {
+			for _, size := range []int{1, 2, 3} {
+				for _, fw := range []bool{true, false} {
+					jobs = append(jobs, job{st, size, fw})
+				}
+			}
+		}
+		var mu sync.Mutex
+		reported := map[string]bool{}
+		for round := 0; round < r.Pick(3, 12); round++ {
+			var wg sync.WaitGroup
+			sem := make(chan struct{}, 8)
+			for _, j := range jobs {
+				wg.Add(1)
+				sem <- struct{}{}
+				go func(j job) {
+					defer wg.Done()
+					defer func() { <-sem }()
+					got, pages, pageDefect, fatal := e2eWalk(h, j.st.f, j.size, j.forward, len(j.st.ref))
+					dir := "backward"
+					if j.forward {
+						dir = "forward"
+					}
+					r.Count("e2e_concurrent_walks", 1)
+					r.Count("e2e_concurrent_pages", pages)
+					what := ""
+					switch {
+					case fatal != "":
+						what = fatal
+					case !sameStrings(got, j.st.ref):
+						what = describeWalkDiff(got, j.st.ref)
+					case strings.HasPrefix(pageDefect, "cursors|") || strings.HasPrefix(pageDefect, "nodes-vs-edges|"):
+						what = strings.SplitN(pageDefect, "|", 2)[1]
+					}
+					if what == "" {
+						return
+					}
+					key := "e2e-concurrent-walk:" + j.st.f.Key + ":" + dir
+					mu.Lock()
+					first := !reported[key]
+					reported[key] = true
+					mu.Unlock()
+					if first {
+						r.Violation(key, fmt.Sprintf("%s (%d elements), page size %d, %s walk while 7 other walks were running: %s (the same walk alone reproduces the list)", j.st.f.Key, len(j.st.ref), j.size, dir, what),
+							map[string]any{"field": j.st.f.Key, "page_size": j.size, "direction": dir, "concurrent": true})
+					}
+				}(j)
+			}
+			wg.Wait()
+		}
+		r.Case(fmt.Sprintf("e2e/concurrent-walks/fields=%d", len(stable)), len(stable) > 0)
 	}
 	r.Count("e2e_http_requests", int(h.Requests))
 }
